@@ -4,6 +4,7 @@
     binary32 / binary64 (Coq.Floats.SpecFloat: computable, proof free, round to nearest even).
     Models only. *)
 From Coq Require Import List ZArith Bool Floats.SpecFloat.
+From RB Require Export Generated.Tables.
 Import ListNotations.
 Open Scope Z_scope.
 
@@ -13,8 +14,6 @@ Inductive variant :=
 | VInteger (z : Z)
 | VLong (z : Z)
 | VString (s : list Z).
-
-Inductive qual := QSingle | QDouble | QInteger | QLong | QString.
 
 Inductive verr := EOverflow | ETypeMismatch | ENotFinite | EDivisionByZero.
 
